@@ -1,0 +1,25 @@
+//go:build verif
+// +build verif
+
+package engine
+
+import "sync"
+
+// VerifHook is installed by the verification harness (build tag verif only).
+// site names the hooked linearisation point; a and b are cheap scalars.
+var VerifHook func(site string, a, b int64)
+
+func verifHook(site string, a, b int64) {
+	if h := VerifHook; h != nil {
+		h(site, a, b)
+	}
+}
+
+// verifLocked reports 1 if m is held by somebody at this moment.
+func verifLocked(m *sync.Mutex) int64 {
+	if m.TryLock() {
+		m.Unlock()
+		return 0
+	}
+	return 1
+}
